@@ -1,113 +1,17 @@
-(* C12 — chunk independence of the FASTA sequence scanner on well-formed sequence text, and its
-   refutation on text with a bare CR or a '>' inside a line (candidate finding F4). *)
+(* C12 — the repaired FASTA sequence scanner and indexer line consumer return closed forms on
+   the data for EVERY delivery (any windows, any placement of Interrupted): no side condition. *)
 From Coq Require Import List NArith Arith Bool Lia.
 From NV Require Import Io.Source Io.ReadExact Io.ReadExactProofs Io.BufReader Io.BufReaderProofs Io.FastaScan.
 Import ListNotations.
 
-Fixpoint drop_nl (d : list N) : list N :=
-  match d with
-  | [] => []
-  | x :: r => if is_nl x then drop_nl r else d
-  end.
+Definition lst (ib : bool) : lstate := if ib then BOL else MID.
 
-Lemma drop_nl_length : forall d, length (drop_nl d) <= length d.
-Proof.
-  induction d as [|x r IH]; cbn [drop_nl length]; [lia|].
-  destruct (is_nl x); cbn [length]; lia.
-Qed.
+(* what is still to be produced from reader state (is_bol, has_pending_cr) and remaining data d;
+   a held-back CR is a CR seen in mid-line position *)
+Definition spec (ib p : bool) (d : list N) : list N :=
+  if p then seq_out MID (CR :: d) else seq_out (lst ib) d.
 
-Definition ordinary (b : N) : Prop := N.eqb b GT = false /\ N.eqb b CR = false /\ N.eqb b LF = false.
-
-Lemma seq_spec_ordinary_app : forall p r, Forall ordinary p -> seq_spec (p ++ r) = p ++ seq_spec r.
-Proof.
-  intros p r H. induction H as [|x p [Hg [Hc Hl]] Hp IH]; [reflexivity|].
-  unfold seq_spec in *. cbn [app take_seq]. rewrite Hg. cbn [filter].
-  unfold is_nl at 1. rewrite Hc, Hl. cbn [orb negb]. f_equal. exact IH.
-Qed.
-
-Lemma seq_spec_drop_nl : forall d, seq_spec (drop_nl d) = seq_spec d.
-Proof.
-  induction d as [|x r IH]; [reflexivity|].
-  cbn [drop_nl]. destruct (is_nl x) eqn:Hx; [|reflexivity].
-  rewrite IH. unfold seq_spec. cbn [take_seq].
-  assert (Hg : N.eqb x GT = false).
-  { unfold is_nl in Hx. apply orb_true_iff in Hx. destruct Hx as [H|H]; apply N.eqb_eq in H; subst x; reflexivity. }
-  rewrite Hg. cbn [filter]. rewrite Hx. reflexivity.
-Qed.
-
-Lemma wf_seq_drop_nl : forall d b, wf_seq b d -> exists b', wf_seq b' (drop_nl d).
-Proof.
-  induction d as [|x r IH]; intros b H.
-  - exists b. exact H.
-  - cbn [drop_nl]. destruct (is_nl x) eqn:Hx; [|exists b; exact H].
-    unfold is_nl in Hx. cbn [wf_seq] in H.
-    destruct (N.eqb x GT) eqn:Hg.
-    { apply N.eqb_eq in Hg. subst x. discriminate. }
-    destruct (N.eqb x CR) eqn:Hc.
-    + destruct H as [_ H]. exact (IH false H).
-    + cbn [orb] in Hx. rewrite Hx in H. exact (IH true H).
-Qed.
-
-(* the slice returned for the tail of a window: ordinary bytes only, a prefix of the data, and
-   what follows is still well-formed in mid-line position *)
-Lemma piece_tail : forall src d, src = firstn (length src) d -> wf_seq false d ->
-  exists rest, d = strip_cr (until_lf src) ++ rest /\ Forall ordinary (strip_cr (until_lf src))
-               /\ wf_seq false rest.
-Proof.
-  induction src as [|x s IH]; intros d Hp Hw.
-  - exists d. cbn [until_lf strip_cr app]. auto.
-  - destruct d as [|y d']; [discriminate|]. cbn [length firstn] in Hp.
-    injection Hp as Hxy Hp'. subst y. cbn [until_lf].
-    destruct (N.eqb x LF) eqn:Hl.
-    { exists (x :: d'). cbn [strip_cr app]. auto. }
-    cbn [wf_seq] in Hw. destruct (N.eqb x GT) eqn:Hg; [discriminate|].
-    destruct (N.eqb x CR) eqn:Hc.
-    + (* CR: the next byte of the data is LF or the data ends *)
-      destruct Hw as [Hnext Hw'].
-      assert (Hul : until_lf s = []).
-      { destruct s as [|z s']; [reflexivity|].
-        destruct d' as [|z' d'']; [discriminate|]. cbn [length firstn] in Hp'.
-        injection Hp' as Hz _. subst z'. subst z. reflexivity. }
-      rewrite Hul. cbn [strip_cr]. rewrite Hc. exists (x :: d'). cbn [app].
-      split; [reflexivity|]. split; [constructor|].
-      cbn [wf_seq]. rewrite Hg, Hc. auto.
-    + rewrite Hl in Hw.
-      destruct (IH d' Hp' Hw) as [rest [Hd [Hord Hwr]]].
-      destruct (until_lf s) as [|z l] eqn:Hul.
-      * cbn [strip_cr] in *. rewrite Hc. exists d'. cbn [app].
-        split; [reflexivity|]. split; [|exact Hw].
-        constructor; [|constructor]. unfold ordinary. auto.
-      * exists rest. change (strip_cr (x :: z :: l)) with (x :: strip_cr (z :: l)).
-        cbn [app]. split; [f_equal; exact Hd|]. split; [|exact Hwr].
-        constructor; [unfold ordinary; auto|exact Hord].
-Qed.
-
-Lemma piece_head : forall x s d' b,
-  (x :: s) = firstn (length (x :: s)) (x :: d') -> wf_seq b (x :: d') ->
-  is_nl x = false -> N.eqb x GT = false ->
-  exists p rest, strip_cr (until_lf (x :: s)) = x :: p /\ x :: d' = (x :: p) ++ rest
-                 /\ Forall ordinary (x :: p) /\ wf_seq false rest.
-Proof.
-  intros x s d' b Hp Hw Hnl Hg.
-  unfold is_nl in Hnl. apply orb_false_iff in Hnl. destruct Hnl as [Hc Hl].
-  cbn [length firstn] in Hp. injection Hp as Hp'.
-  cbn [wf_seq] in Hw. rewrite Hg, Hc, Hl in Hw.
-  destruct (piece_tail s d' Hp' Hw) as [rest [Hd [Hord Hwr]]].
-  cbn [until_lf]. rewrite Hl.
-  destruct (until_lf s) as [|z l] eqn:Hul.
-  - cbn [strip_cr] in *. rewrite Hc. exists [], d'. cbn [app].
-    split; [reflexivity|]. split; [reflexivity|]. split; [|exact Hw].
-    constructor; [unfold ordinary; auto|constructor].
-  - exists (strip_cr (z :: l)), rest.
-    change (strip_cr (x :: z :: l)) with (x :: strip_cr (z :: l)).
-    split; [reflexivity|]. cbn [app]. split; [f_equal; exact Hd|].
-    split; [|exact Hwr]. constructor; [unfold ordinary; auto|exact Hord].
-Qed.
-
-
-(* ---- indexer line consumer: facts about one window *)
-Definition not_nl (b : N) : bool := negb (is_nl b).
-Definition seq_line (d : list N) : list N := take_line LF (take_seq d).
+Definition mu (m : nat) (d : list N) (p : bool) : nat := m + 2 * length d + (if p then 1 else 0).
 
 Lemma until_lf_no_lf : forall w, has_byte LF (until_lf w) = false.
 Proof.
@@ -133,52 +37,80 @@ Proof.
     cbn [app length skipn]. f_equal. exact (IH H).
 Qed.
 
-Lemma take_seq_app_nogt : forall l r, Forall (fun b => N.eqb b GT = false) l ->
-  take_seq (l ++ r) = l ++ take_seq r.
+Lemma until_lf_prefix : forall src d, src = firstn (length src) d ->
+  until_lf src = firstn (length (until_lf src)) d.
 Proof.
-  intros l r H. induction H as [|x l Hx Hl IH]; [reflexivity|].
-  cbn [app take_seq]. rewrite Hx. f_equal. exact IH.
+  induction src as [|x s IH]; intros d Hp; [reflexivity|].
+  destruct d as [|y d']; [discriminate|]. cbn [length firstn] in Hp.
+  injection Hp as Hxy Hp'. subst y. cbn [until_lf].
+  destruct (N.eqb x LF); [reflexivity|]. cbn [length firstn]. f_equal. exact (IH d' Hp').
 Qed.
 
-Lemma win_any : forall src d b, src = firstn (length src) d -> wf_seq b d ->
-  match src with x :: _ => N.eqb x GT = false | [] => True end ->
-  let l := until_lf src in
-  Forall (fun c => N.eqb c GT = false) l
-  /\ length (filter not_nl l) = length (strip_cr l)
-  /\ (l <> [] -> wf_seq false (skipn (length l) d)).
+Lemma until_lf_length : forall w, length (until_lf w) <= length w.
 Proof.
-  induction src as [|x s IH]; intros d b Hp Hw Hh; cbn zeta.
-  - cbn [until_lf]. split; [constructor|]. split; [reflexivity|]. intros H; congruence.
-  - destruct d as [|y d']; [discriminate|]. cbn [length firstn] in Hp.
-    injection Hp as Hxy Hp'. subst y. cbn [until_lf].
-    destruct (N.eqb x LF) eqn:Hl.
-    { split; [constructor|]. split; [reflexivity|]. intros H; congruence. }
-    cbn [wf_seq] in Hw. rewrite Hh in Hw.
-    assert (Hw' : wf_seq false d').
-    { destruct (N.eqb x CR); [exact (proj2 Hw)|]. rewrite Hl in Hw. exact Hw. }
-    assert (Hh' : match s with z :: _ => N.eqb z GT = false | [] => True end).
-    { destruct s as [|z s']; [exact I|].
-      destruct d' as [|z' d'']; [discriminate|]. cbn [length firstn] in Hp'.
-      injection Hp' as Hz _. subst z'. cbn [wf_seq] in Hw'.
-      destruct (N.eqb z GT); [discriminate|reflexivity]. }
-    destruct (IH d' false Hp' Hw' Hh') as [H1 [H2 H4]].
-    split; [constructor; assumption|]. split.
-    + cbn [filter]. unfold not_nl at 1, is_nl. rewrite Hl, orb_false_r.
-      destruct (N.eqb x CR) eqn:Hc.
-      * (* CR: the window ends here or LF follows, so nothing more on this line *)
-        assert (Hul : until_lf s = []).
-        { destruct Hw as [Hnext _].
-          destruct s as [|z s']; [reflexivity|].
-          destruct d' as [|z' d'']; [discriminate|]. cbn [length firstn] in Hp'.
-          injection Hp' as Hz _. subst z'. subst z. reflexivity. }
-        rewrite Hul. cbn [negb filter strip_cr length]. rewrite Hc. reflexivity.
-      * cbn [negb]. destruct (until_lf s) as [|z l'] eqn:Hul.
-        -- cbn [filter strip_cr length]. rewrite Hc. reflexivity.
-        -- change (strip_cr (x :: z :: l')) with (x :: strip_cr (z :: l')).
-           cbn [length]. f_equal. exact H2.
-    + intros _. cbn [length skipn].
-      destruct (until_lf s) as [|z l'] eqn:Hul; [exact Hw'|].
-      apply H4. congruence.
+  induction w as [|x w IH]; [cbn; lia|]. cbn [until_lf].
+  destruct (N.eqb x LF); cbn [length]; lia.
+Qed.
+
+Lemma strip_cr_length : forall l, length (strip_cr l) <= length l.
+Proof.
+  induction l as [|a l IH]; [cbn; lia|]. cbn [strip_cr].
+  destruct l; [destruct (N.eqb a CR); cbn [length]; lia|]. cbn [length] in *. lia.
+Qed.
+
+Lemma strip_cr_nil : forall l, l <> [] -> strip_cr l = [] -> l = [CR].
+Proof.
+  intros l Hne H. destruct l as [|x [|y l']]; [congruence| |discriminate].
+  cbn [strip_cr] in H. destruct (N.eqb x CR) eqn:Hc; [|discriminate].
+  apply N.eqb_eq in Hc. subst x. reflexivity.
+Qed.
+
+(* the bytes of a window up to its end / first LF, minus a final CR, are produced verbatim in
+   mid-line position *)
+Lemma mid_tail : forall l d, l = firstn (length l) d -> has_byte LF l = false ->
+  seq_out MID d = strip_cr l ++ seq_out MID (skipn (length (strip_cr l)) d).
+Proof.
+  induction l as [|x l IH]; intros d Hp Hb; [reflexivity|].
+  destruct d as [|y d']; [discriminate|]. cbn [length firstn] in Hp.
+  injection Hp as Hxy Hp'. subst y.
+  cbn [has_byte existsb] in Hb. apply orb_false_iff in Hb. destruct Hb as [Hx Hb'].
+  rewrite N.eqb_sym in Hx.
+  destruct l as [|z l'].
+  - cbn [strip_cr]. destruct (N.eqb x CR) eqn:Hc; [reflexivity|].
+    cbn [app length skipn seq_out]. rewrite Hx, Hc. reflexivity.
+  - change (strip_cr (x :: z :: l')) with (x :: strip_cr (z :: l')).
+    cbn [app length skipn]. rewrite <- (IH d' Hp' Hb').
+    destruct d' as [|z' d'']; [discriminate|].
+    assert (z' = z) by (cbn [length firstn] in Hp'; injection Hp' as Hz _; auto). subst z'.
+    assert (Hz : N.eqb z LF = false).
+    { cbn [has_byte existsb] in Hb'. apply orb_false_iff in Hb'. rewrite N.eqb_sym. exact (proj1 Hb'). }
+    cbn [seq_out]. rewrite Hx. destruct (N.eqb x CR); [rewrite Hz|]; reflexivity.
+Qed.
+
+Lemma bol_ordinary : forall b r, N.eqb b LF = false -> N.eqb b CR = false -> N.eqb b GT = false ->
+  seq_out BOL (b :: r) = seq_out MID (b :: r).
+Proof. intros b r Hl Hc Hg. cbn [seq_out]. rewrite Hl, Hc, Hg. reflexivity. Qed.
+
+Lemma prefix_cons : forall (b : N) w' d, b :: w' = firstn (length (b :: w')) d ->
+  exists r, d = b :: r.
+Proof.
+  intros b w' d H. destruct d as [|y r]; [discriminate|]. cbn [length firstn] in H.
+  injection H as Hy _. subst y. exists r. reflexivity.
+Qed.
+
+Lemma until_lf_app : forall l r, has_byte LF l = false -> until_lf (l ++ r) = l ++ until_lf r.
+Proof.
+  induction l as [|a l IH]; intros r H; [reflexivity|].
+  cbn [has_byte existsb] in H. apply orb_false_iff in H. destruct H as [Ha Hl].
+  cbn [app until_lf]. rewrite N.eqb_sym, Ha. f_equal. exact (IH r Hl).
+Qed.
+
+Lemma last_cr_app : forall p q, q <> [] -> last_cr (p ++ q) = last_cr q.
+Proof.
+  induction p as [|x p IH]; intros q Hq; [reflexivity|].
+  cbn [app]. destruct (p ++ q) eqn:E.
+  - destruct p; [cbn [app] in E; congruence|discriminate].
+  - change (last_cr (x :: n :: l)) with (last_cr (n :: l)). rewrite <- E. exact (IH q Hq).
 Qed.
 
 Section ScanProofs.
@@ -189,185 +121,271 @@ Section ScanProofs.
   Variable cap : nat.
   Hypothesis Hcap : 1 <= cap.
 
-  Notation rep0 st d := (rep_buf Rep st d 0).
+  Notation repb st d m := (rep_buf Rep st d m).
 
-  Lemma fill0_nil : forall st, rep0 st [] ->
-    exists st1, br_fill_buf rd cap st = (ROk [], st1) /\ rep0 st1 [].
+  Lemma consume_k : forall st1 w d m k, fst st1 = w -> repb st1 d m -> k <= length w ->
+    repb (br_consume k st1) (skipn k d) m.
   Proof.
-    intros st HR. pose proof (br_fill_buf_spec rd Rep Hsim cap Hcap st [] 0 HR) as H.
-    destruct (br_fill_buf rd cap st) as [[w|] st1].
-    - destruct H as [Hpre [_ [_ [m' [Hm' HR']]]]]. rewrite firstn_nil in Hpre. subst w.
-      exists st1. assert (m' = 0) by lia. subst m'. auto.
-    - destruct H as [m' [Hm' _]]. lia.
+    intros st1 w d m k Hfst HR Hk. apply br_consume_spec; [exact HR|]. rewrite Hfst. exact Hk.
   Qed.
 
-  Lemma fill0_cons : forall st x r, rep0 st (x :: r) ->
-    exists w' st1, br_fill_buf rd cap st = (ROk (x :: w'), st1)
-      /\ x :: w' = firstn (length (x :: w')) (x :: r)
-      /\ fst st1 = x :: w' /\ rep0 st1 (x :: r).
+  (* one fill_buf followed by consume(whole slice) *)
+  Lemma step_spec : forall fuel ib p st d m,
+    repb st d m -> (p = true -> ib = false) -> mu m d p < fuel ->
+    exists piece s' ib2 p2 st2 d2 m2,
+      seq_fill_buf rd cap fuel ib p st = (SOk, piece, s')
+      /\ seq_consume (length piece) s' = (ib2, p2, st2)
+      /\ repb st2 d2 m2 /\ (p2 = true -> ib2 = false)
+      /\ spec ib p d = piece ++ match piece with [] => [] | _ => spec ib2 p2 d2 end
+      /\ (piece <> [] -> mu m2 d2 p2 < mu m d p).
   Proof.
-    intros st x r HR. pose proof (br_fill_buf_spec rd Rep Hsim cap Hcap st (x :: r) 0 HR) as H.
-    destruct (br_fill_buf rd cap st) as [[w|] st1].
-    - destruct H as [Hpre [Hne [Hfst [m' [Hm' HR']]]]].
-      assert (m' = 0) by lia. subst m'.
-      destruct w as [|y w']; [exfalso; apply Hne; [discriminate|reflexivity]|].
-      assert (y = x). { cbn [length firstn] in Hpre. injection Hpre as Hy _. exact Hy. }
-      subst y. exists w', st1. auto.
-    - destruct H as [m' [Hm' _]]. lia.
+    induction fuel as [|fuel IH]; intros ib p st d m HR Hinv Hf; [lia|].
+    cbn [seq_fill_buf].
+    pose proof (br_fill_buf_spec rd Rep Hsim cap Hcap st d m HR) as Hfb.
+    destruct (br_fill_buf rd cap st) as [[src|] st1].
+    2:{ destruct Hfb as [m1 [Hm1 HR1]].
+        destruct (IH ib p st1 d m1 HR1 Hinv ltac:(unfold mu in *; lia))
+          as [piece [s' [ib2 [p2 [st2 [d2 [m2 [E [Ec [HR2 [Hi2 [Hs Hmu]]]]]]]]]]]].
+        exists piece, s', ib2, p2, st2, d2, m2.
+        split; [exact E|]. split; [exact Ec|]. split; [exact HR2|]. split; [exact Hi2|].
+        split; [exact Hs|].
+        intros Hne. specialize (Hmu Hne). unfold mu in *. lia. }
+    destruct Hfb as [Hpre [Hne [Hfst [m1 [Hm1 HR1]]]]].
+    destruct (p && match src with x :: _ => negb (N.eqb x LF) | [] => false end) eqn:Hpend.
+    - (* the held-back CR is data *)
+      apply andb_true_iff in Hpend. destruct Hpend as [Hp Hx]. subst p.
+      rewrite (Hinv eq_refl) in *.
+      destruct src as [|x w']; [discriminate|].
+      destruct (prefix_cons x w' d Hpre) as [r Hd]. subst d.
+      apply negb_true_iff in Hx.
+      exists [CR], (false, true, st1), false, false, st1, (x :: r), m1.
+      split; [reflexivity|]. split; [reflexivity|]. split; [exact HR1|].
+      split; [intros H; discriminate|]. split.
+      + unfold spec, lst. cbn [seq_out app]. change (N.eqb CR LF) with false. cbv iota.
+        change (N.eqb CR CR) with true. cbv iota. rewrite Hx. reflexivity.
+      + intros _. unfold mu. lia.
+    - (* no held-back CR any more: what remains is seq_out (lst ib) d *)
+      assert (Hcur : spec ib p d = seq_out (lst ib) d).
+      { unfold spec. destruct p; [|reflexivity]. rewrite (Hinv eq_refl). unfold lst.
+        cbn [andb] in Hpend. destruct src as [|x w'].
+        - assert (d = []) by (destruct d; [reflexivity|exfalso; apply Hne; [discriminate|reflexivity]]).
+          subst d. reflexivity.
+        - destruct (prefix_cons x w' d Hpre) as [r Hd]. subst d.
+          apply negb_false_iff in Hpend. cbn [seq_out].
+          change (N.eqb CR LF) with false. cbv iota. change (N.eqb CR CR) with true. cbv iota.
+          rewrite Hpend. reflexivity. }
+      rewrite Hcur.
+      destruct src as [|b w'].
+      + assert (d = []) by (destruct d; [reflexivity|exfalso; apply Hne; [discriminate|reflexivity]]).
+        subst d. exists [], (ib, false, st1), ib, false, st1, [], m1.
+        split; [reflexivity|]. split; [reflexivity|]. split; [exact HR1|].
+        split; [intros H; discriminate|]. split; [destruct ib; reflexivity|].
+        intros H; congruence.
+      + destruct (prefix_cons b w' d Hpre) as [r Hd]. subst d.
+        set (src := b :: w') in *.
+        destruct (N.eqb b LF || (ib && N.eqb b CR)) eqn:Hnl.
+        * (* a line terminator byte, or a CR at the beginning of a line *)
+          assert (HR2 : repb (br_consume 1 st1) r m1).
+          { change r with (skipn 1 (b :: r)). apply (consume_k st1 src); auto. unfold src. cbn [length]. lia. }
+          destruct (IH true false _ r m1 HR2 ltac:(intros H; discriminate)
+                      ltac:(unfold mu in *; cbn [length] in *; destruct p; lia))
+            as [piece [s' [ib2 [p2 [st2 [d2 [m2 [E [Ec [HR3 [Hi2 [Hs Hmu]]]]]]]]]]]].
+          exists piece, s', ib2, p2, st2, d2, m2.
+          split; [exact E|]. split; [exact Ec|]. split; [exact HR3|]. split; [exact Hi2|]. split.
+          -- rewrite <- Hs. unfold spec, lst at 2. cbn [seq_out].
+             destruct (N.eqb b LF) eqn:Hl; [reflexivity|].
+             cbn [orb] in Hnl. apply andb_true_iff in Hnl. destruct Hnl as [Hib Hc].
+             subst ib. unfold lst. rewrite Hc. reflexivity.
+          -- intros Hn. specialize (Hmu Hn). unfold mu in *. cbn [length] in *. destruct p; lia.
+        * apply orb_false_iff in Hnl. destruct Hnl as [Hl Hbc].
+          destruct (ib && N.eqb b GT) eqn:Hgt.
+          -- (* the next definition *)
+             apply andb_true_iff in Hgt. destruct Hgt as [Hib Hg]. subst ib.
+             apply N.eqb_eq in Hg. subst b.
+             exists [], (true, false, st1), true, false, st1, (GT :: r), m1.
+             split; [reflexivity|]. split; [reflexivity|]. split; [exact HR1|].
+             split; [intros H; discriminate|]. split; [reflexivity|]. intros H; congruence.
+          -- assert (Hline : until_lf src <> []).
+             { unfold src. cbn [until_lf]. rewrite Hl. discriminate. }
+             pose proof (until_lf_prefix src (b :: r) Hpre) as Hlp.
+             pose proof (until_lf_no_lf src) as Hnolf.
+             pose proof (mid_tail (until_lf src) (b :: r) Hlp Hnolf) as Hmt.
+             assert (Hmid : seq_out (lst ib) (b :: r) = seq_out MID (b :: r)).
+             { destruct ib; [|reflexivity]. cbn [andb] in Hbc, Hgt. unfold lst.
+               apply bol_ordinary; assumption. }
+             destruct (strip_cr (until_lf src)) as [|q piece'] eqn:Hsc.
+             ++ (* the rest of the line in this window is a lone CR: hold it back *)
+                pose proof (strip_cr_nil _ Hline Hsc) as Hcr.
+                assert (Hb : b = CR).
+                { unfold src in Hcr. cbn [until_lf] in Hcr. rewrite Hl in Hcr. injection Hcr as Hb _. exact Hb. }
+                subst b.
+                assert (Hib : ib = false).
+                { destruct ib; [|reflexivity]. cbn [andb] in Hbc. discriminate. }
+                subst ib.
+                assert (HR2 : repb (br_consume 1 st1) r m1).
+                { change r with (skipn 1 (CR :: r)). apply (consume_k st1 src); auto. unfold src. cbn [length]. lia. }
+                destruct (IH false true _ r m1 HR2 ltac:(auto)
+                            ltac:(unfold mu in *; cbn [length] in *; destruct p; lia))
+                  as [piece [s' [ib2 [p2 [st2 [d2 [m2 [E [Ec [HR3 [Hi2 [Hs Hmu]]]]]]]]]]]].
+                exists piece, s', ib2, p2, st2, d2, m2.
+                split; [exact E|]. split; [exact Ec|]. split; [exact HR3|]. split; [exact Hi2|].
+                split; [rewrite <- Hs; reflexivity|].
+                intros Hn. specialize (Hmu Hn). unfold mu in *. cbn [length] in *. destruct p; lia.
+             ++ set (piece := q :: piece') in *.
+                assert (Hplen : length piece <= length src).
+                { rewrite <- Hsc. pose proof (strip_cr_length (until_lf src)).
+                  pose proof (until_lf_length src). lia. }
+                exists piece, (ib, false, st1), false, false, (br_consume (length piece) st1),
+                       (skipn (length piece) (b :: r)), m1.
+                split; [reflexivity|]. split; [reflexivity|].
+                split; [apply (consume_k st1 src); auto|]. split; [intros H; discriminate|]. split.
+                ** rewrite Hmid, Hmt. reflexivity.
+                ** intros _. unfold mu. rewrite skipn_length.
+                   unfold piece. cbn [length]. destruct p; lia.
   Qed.
 
-  Lemma consume1 : forall st1 x w' r, fst st1 = x :: w' -> rep0 st1 (x :: r) ->
-    rep0 (br_consume 1 st1) r.
+  (* read_sequence: the closed form, for every delivery *)
+  Theorem read_sequence_spec : forall fuel ib p st d m acc,
+    repb st d m -> (p = true -> ib = false) -> mu m d p < fuel ->
+    exists s', read_sequence rd cap fuel (ib, p, st) acc = (SOk, acc ++ spec ib p d, s').
   Proof.
-    intros st1 x w' r Hfst HR.
-    change r with (skipn 1 (x :: r)). apply br_consume_spec; [exact HR|].
-    rewrite Hfst. cbn [length]. lia.
-  Qed.
-
-  Lemma cel_spec : forall fuel st d, rep0 st d -> length d < fuel ->
-    exists st', consume_empty_lines rd cap fuel st = (SOk, st') /\ rep0 st' (drop_nl d).
-  Proof.
-    induction fuel as [|fuel IH]; intros st d HR Hf; [lia|].
-    cbn [consume_empty_lines].
-    destruct d as [|x r].
-    - destruct (fill0_nil st HR) as [st1 [E1 HR1]]. rewrite E1. cbn [strip_if].
-      destruct (fill0_nil st1 HR1) as [st3 [E3 HR3]]. rewrite E3. cbn [strip_if orb].
-      exists st3. auto.
-    - destruct (fill0_cons st x r HR) as [w' [st1 [E1 [Hp1 [Hf1 HR1]]]]]. rewrite E1.
-      cbn [strip_if drop_nl]. unfold is_nl.
-      destruct (N.eqb x CR) eqn:Hc.
-      + cbn [orb].
-        pose proof (consume1 st1 x w' r Hf1 HR1) as HR2.
-        destruct r as [|y r'].
-        * destruct (fill0_nil _ HR2) as [st3 [E3 HR3]]. rewrite E3. cbn [strip_if orb].
-          destruct (IH st3 [] HR3 ltac:(cbn [length] in *; lia)) as [st' [E HR']].
-          exists st'. auto.
-        * destruct (fill0_cons _ y r' HR2) as [w2 [st3 [E3 [Hp3 [Hf3 HR3]]]]]. rewrite E3.
-          cbn [strip_if]. destruct (N.eqb y LF) eqn:Hl.
-          -- cbn [orb]. pose proof (consume1 st3 y w2 r' Hf3 HR3) as HR4.
-             destruct (IH _ r' HR4 ltac:(cbn [length] in *; lia)) as [st' [E HR']].
-             exists st'. split; [exact E|]. cbn [drop_nl]. unfold is_nl. rewrite Hl.
-             rewrite orb_true_r. exact HR'.
-          -- cbn [orb].
-             destruct (IH st3 (y :: r') HR3 ltac:(cbn [length] in *; lia)) as [st' [E HR']].
-             exists st'. auto.
-      + cbn [orb].
-        destruct (fill0_cons st1 x r HR1) as [w2 [st3 [E3 [Hp3 [Hf3 HR3]]]]]. rewrite E3.
-        cbn [strip_if]. destruct (N.eqb x LF) eqn:Hl.
-        * cbn [orb]. pose proof (consume1 st3 x w2 r Hf3 HR3) as HR4.
-          destruct (IH _ r HR4 ltac:(cbn [length] in *; lia)) as [st' [E HR']].
-          exists st'. auto.
-        * cbn [orb]. exists st3. auto.
-  Qed.
-
-  (* read_sequence: on well-formed text the result is seq_spec of the data, whatever the windows *)
-  Theorem read_sequence_spec : forall fuel st d b acc,
-    rep0 st d -> wf_seq b d -> length d < fuel ->
-    exists st', read_sequence rd cap fuel st acc = (SOk, acc ++ seq_spec d, st').
-  Proof.
-    induction fuel as [|fuel IH]; intros st d b acc HR Hw Hf; [lia|].
-    cbn [read_sequence]. unfold seq_fill_buf.
-    destruct (cel_spec (Datatypes.S fuel) st d HR Hf) as [st1 [E1 HR1]]. rewrite E1.
-    destruct (wf_seq_drop_nl d b Hw) as [b1 Hw1].
-    rewrite <- (seq_spec_drop_nl d).
-    pose proof (drop_nl_length d) as Hdl.
-    assert (Hhead : match drop_nl d with [] => True | x :: _ => is_nl x = false end).
-    { clear. induction d as [|x r IHd]; cbn [drop_nl]; [exact I|].
-      destruct (is_nl x) eqn:Hx; [exact IHd|exact Hx]. }
-    destruct (drop_nl d) as [|x r].
-    - destruct (fill0_nil st1 HR1) as [st2 [E2 HR2]]. rewrite E2.
-      exists st2. unfold seq_spec. cbn [take_seq filter]. rewrite app_nil_r. reflexivity.
-    - destruct (fill0_cons st1 x r HR1) as [w' [st2 [E2 [Hp2 [Hf2 HR2]]]]]. rewrite E2.
-      destruct (N.eqb x GT) eqn:Hg.
-      + exists st2. unfold seq_spec. cbn [take_seq]. rewrite Hg. cbn [filter].
-        rewrite app_nil_r. reflexivity.
-      + destruct (piece_head x w' r b1 Hp2 Hw1 Hhead Hg) as [p [rest [Ep [Hd [Hord Hwr]]]]].
-        rewrite Ep.
-        assert (HR3 : rep0 (br_consume (length (x :: p)) st2) rest).
-        { replace rest with (skipn (length (x :: p)) (x :: r)).
-          - apply br_consume_spec; [exact HR2|]. rewrite Hf2.
-            rewrite <- Ep. clear. generalize (x :: w'). intros l.
-            assert (H1 : forall l0, length (strip_cr l0) <= length l0).
-            { induction l0 as [|a l0 IHl]; [cbn; lia|]. cbn [strip_cr].
-              destruct l0; [destruct (N.eqb a CR); cbn [length]; lia|].
-              cbn [length] in *. lia. }
-            assert (H2 : forall l0, length (until_lf l0) <= length l0).
-            { induction l0 as [|a l0 IHl]; [cbn; lia|]. cbn [until_lf].
-              destruct (N.eqb a LF); cbn [length]; lia. }
-            specialize (H1 (until_lf l)). specialize (H2 l). lia.
-          - rewrite Hd. rewrite skipn_app_le by lia.
-            rewrite skipn_all. reflexivity. }
-        destruct (IH _ rest false (acc ++ x :: p) HR3 Hwr) as [st' E].
-        { assert (length (x :: r) = length (x :: p) + length rest) by (rewrite Hd, app_length; reflexivity).
-          cbn [length] in *. lia. }
-        exists st'. rewrite E. rewrite Hd. rewrite (seq_spec_ordinary_app (x :: p) rest Hord).
-        rewrite <- app_assoc. reflexivity.
+    induction fuel as [|fuel IH]; intros ib p st d m acc HR Hinv Hf; [lia|].
+    cbn [read_sequence].
+    destruct (step_spec (Datatypes.S fuel) ib p st d m HR Hinv ltac:(lia))
+      as [piece [s' [ib2 [p2 [st2 [d2 [m2 [E [Ec [HR2 [Hi2 [Hs Hmu]]]]]]]]]]]].
+    rewrite E. destruct piece as [|q piece'].
+    - exists s'. rewrite Hs. rewrite app_nil_r. reflexivity.
+    - rewrite Ec.
+      destruct (IH ib2 p2 st2 d2 m2 (acc ++ q :: piece') HR2 Hi2) as [sf Ef].
+      { assert (mu m2 d2 p2 < mu m d p) by (apply Hmu; discriminate). lia. }
+      exists sf. rewrite Ef. rewrite Hs. rewrite <- app_assoc. reflexivity.
   Qed.
 
   (* ---- indexer::consume_sequence_line *)
-  Lemma csl_eol : forall fuel st d w b, rep0 st d -> 0 < fuel ->
-    exists st', consume_sequence_line rd cap fuel st true w b = (SOk, w, b, st').
+  Definition flag (ec : bool) (l : list N) : bool := match l with [] => ec | _ => last_cr l end.
+  Definition fin (f : bool) (n : nat) : nat := if f then n - 1 else n.
+
+  Lemma csl_eol : forall fuel st d m ec w b, repb st d m -> m < fuel ->
+    exists st', consume_sequence_line rd cap fuel st true ec w b = (SOk, w, fin ec b, st').
   Proof.
-    intros fuel st d w b HR Hf. destruct fuel as [|fuel]; [lia|].
-    cbn [consume_sequence_line]. destruct d as [|x r].
-    - destruct (fill0_nil st HR) as [st1 [E1 _]]. rewrite E1. exists st1. reflexivity.
-    - destruct (fill0_cons st x r HR) as [w' [st1 [E1 _]]]. rewrite E1. cbn [orb].
-      exists st1. reflexivity.
+    induction fuel as [|fuel IH]; intros st d m ec w b HR Hf; [lia|].
+    cbn [consume_sequence_line].
+    pose proof (br_fill_buf_spec rd Rep Hsim cap Hcap st d m HR) as Hfb.
+    destruct (br_fill_buf rd cap st) as [[src|] st1].
+    - destruct src; [|cbn [orb]]; exists st1; reflexivity.
+    - destruct Hfb as [m1 [Hm1 HR1]]. exact (IH st1 d m1 ec w b HR1 ltac:(lia)).
   Qed.
 
-  Theorem consume_sequence_line_spec : forall fuel st d b w0 b0,
-    rep0 st d -> wf_seq b d -> length d + 1 < fuel ->
-    exists st', consume_sequence_line rd cap fuel st false w0 b0
-                = (SOk, w0 + length (seq_line d), b0 + length (filter not_nl (seq_line d)), st').
+  Lemma csl_loop : forall fuel st d m ec w b,
+    repb st d m -> m + length d + 1 < fuel ->
+    (w = 0 -> match d with x :: _ => N.eqb x GT = false | [] => True end) ->
+    exists st', consume_sequence_line rd cap fuel st false ec w b
+                = (SOk, w + length (take_line LF d),
+                   fin (flag ec (until_lf d)) (b + length (until_lf d)), st').
   Proof.
-    induction fuel as [|fuel IH]; intros st d b w0 b0 HR Hw Hf; [lia|].
-    cbn [consume_sequence_line]. destruct d as [|x r].
-    - destruct (fill0_nil st HR) as [st1 [E1 _]]. rewrite E1. exists st1.
-      unfold seq_line. cbn [take_seq take_line filter length]. rewrite !Nat.add_0_r. reflexivity.
-    - destruct (fill0_cons st x r HR) as [w' [st1 [E1 [Hp1 [Hf1 HR1]]]]]. rewrite E1.
-      cbn [orb]. destruct (N.eqb x GT) eqn:Hg.
-      { exists st1. unfold seq_line. cbn [take_seq]. rewrite Hg.
-        cbn [take_line filter length]. rewrite !Nat.add_0_r. reflexivity. }
+    induction fuel as [|fuel IH]; intros st d m ec w b HR Hf Hgt; [lia|].
+    cbn [consume_sequence_line].
+    pose proof (br_fill_buf_spec rd Rep Hsim cap Hcap st d m HR) as Hfb.
+    destruct (br_fill_buf rd cap st) as [[src|] st1].
+    2:{ destruct Hfb as [m1 [Hm1 HR1]]. exact (IH st1 d m1 ec w b HR1 ltac:(lia) Hgt). }
+    destruct Hfb as [Hp [Hn [Hfst [m1 [Hm1 HR1]]]]].
+    destruct src as [|x w'].
+    - assert (d = []) by (destruct d; [reflexivity|exfalso; apply Hn; [discriminate|reflexivity]]).
+      subst d. exists st1. unfold csl_finish, fin, flag. cbn [take_line until_lf length].
+      rewrite !Nat.add_0_r. reflexivity.
+    - destruct (prefix_cons x w' d Hp) as [r Hdx].
       set (src := x :: w') in *.
-      destruct (win_any src (x :: r) b Hp1 Hw Hg) as [H1 [H2 H4]].
-      assert (Hd : x :: r = src ++ skipn (length src) (x :: r)).
-      { pose proof (firstn_skipn (length src) (x :: r)) as Hx. rewrite <- Hp1 in Hx.
-        apply eq_sym. exact Hx. }
+      assert (Hchk : ((w =? 0) && N.eqb x GT) = false).
+      { destruct (Nat.eqb_spec w 0) as [Hw|Hw]; [|reflexivity]. cbn [andb].
+        specialize (Hgt Hw). rewrite Hdx in Hgt. exact Hgt. }
+      rewrite Hchk. cbn [orb].
+      assert (Hd : d = src ++ skipn (length src) d).
+      { pose proof (firstn_skipn (length src) d) as Hx. rewrite <- Hp in Hx. apply eq_sym. exact Hx. }
       destruct (has_byte LF src) eqn:Hb.
-      + (* the line ends inside this window *)
-        set (l := until_lf src) in *.
+      + set (l := until_lf src) in *.
         pose proof (until_lf_split src Hb) as Hs. fold l in Hs.
-        assert (Hline : seq_line (x :: r) = l ++ [LF]).
-        { unfold seq_line. rewrite Hd. rewrite Hs at 1. rewrite <- app_assoc.
-          rewrite (take_seq_app_nogt l _ H1). cbn [app take_seq].
-          change (N.eqb LF GT) with false. cbv iota.
-          rewrite (has_byte_false_take_line LF l _ (until_lf_no_lf src)).
-          cbn [take_line]. rewrite N.eqb_refl. reflexivity. }
-        assert (HR2 : rep0 (br_consume (Datatypes.S (length l)) st1) (skipn (Datatypes.S (length l)) (x :: r))).
-        { apply br_consume_spec; [exact HR1|]. rewrite Hf1.
-          pose proof (f_equal (@length N) Hs) as Hx. rewrite app_length in Hx.
-          cbn [length] in Hx. fold src. lia. }
-        destruct (csl_eol fuel _ _ (w0 + Datatypes.S (length l)) (b0 + count_bases l) HR2)
-          as [st' E]; [cbn [length] in Hf; lia|].
-        exists st'. rewrite E. rewrite Hline. rewrite app_length. cbn [length].
-        rewrite filter_app. cbn [filter]. unfold not_nl at 2, is_nl.
-        change (N.eqb LF LF) with true. rewrite orb_true_r. cbn [negb].
-        rewrite app_nil_r. unfold count_bases. rewrite H2.
-        replace (length l + 1) with (Datatypes.S (length l)) by lia. reflexivity.
-      + (* no line feed in this window: the line continues *)
-        pose proof (until_lf_all src Hb) as Hall. rewrite Hall in H1, H2, H4.
-        set (rest := skipn (length src) (x :: r)) in *.
-        assert (Hwr : wf_seq false rest) by (apply H4; unfold src; discriminate).
-        assert (HR2 : rep0 (br_consume (length src) st1) rest).
-        { apply br_consume_spec; [exact HR1|]. rewrite Hf1. lia. }
-        destruct (IH _ rest false (w0 + length src) (b0 + count_bases src) HR2 Hwr) as [st' E].
-        { assert (length (x :: r) = length src + length rest) by (rewrite Hd at 1; apply app_length).
-          unfold src in *. cbn [length] in *. lia. }
+        pose proof (until_lf_no_lf src) as Hnl. fold l in Hnl.
+        assert (Hlen : Datatypes.S (length l) <= length src).
+        { pose proof (f_equal (@length N) Hs) as Hx. rewrite app_length in Hx. cbn [length] in Hx. lia. }
+        assert (HR2 : repb (br_consume (Datatypes.S (length l)) st1) (skipn (Datatypes.S (length l)) d) m1)
+          by (apply (consume_k st1 src); auto).
+        destruct (csl_eol fuel _ _ m1 (match l with [] => ec | _ => last_cr l end)
+                    (w + Datatypes.S (length l)) (b + length l) HR2 ltac:(lia)) as [st' E].
         exists st'. rewrite E.
-        assert (Hline : seq_line (x :: r) = src ++ seq_line rest).
-        { unfold seq_line. rewrite Hd. rewrite (take_seq_app_nogt src _ H1).
-          apply has_byte_false_take_line. exact Hb. }
-        rewrite Hline. rewrite app_length, filter_app, app_length.
-        unfold count_bases. rewrite H2. rewrite !Nat.add_assoc. reflexivity.
+        assert (Hdl : d = l ++ LF :: (skipn (Datatypes.S (length l)) src ++ skipn (length src) d)).
+        { rewrite Hd at 1. rewrite Hs at 1. rewrite <- app_assoc. reflexivity. }
+        assert (Htl : take_line LF d = l ++ [LF]).
+        { rewrite Hdl. rewrite (has_byte_false_take_line LF l _ Hnl).
+          cbn [take_line]. rewrite N.eqb_refl. reflexivity. }
+        assert (Hul : until_lf d = l).
+        { rewrite Hdl. rewrite (until_lf_app l _ Hnl). cbn [until_lf]. rewrite N.eqb_refl.
+          apply app_nil_r. }
+        rewrite Htl, Hul, app_length. cbn [length]. unfold flag.
+        replace (length l + 1) with (Datatypes.S (length l)) by lia. reflexivity.
+      + pose proof (until_lf_all src Hb) as Hall.
+        set (rest := skipn (length src) d) in *.
+        assert (HR2 : repb (br_consume (length src) st1) rest m1)
+          by (apply (consume_k st1 src); auto).
+        destruct (IH _ rest m1 (last_cr src) (w + length src) (b + length src) HR2) as [st' E].
+        { assert (length d = length src + length rest) by (rewrite Hd at 1; apply app_length).
+          unfold src in *. cbn [length] in *. lia. }
+        { intros H0. unfold src in H0. cbn [length] in H0. lia. }
+        exists st'. rewrite E.
+        assert (Htl : take_line LF d = src ++ take_line LF rest).
+        { rewrite Hd at 1. apply has_byte_false_take_line. exact Hb. }
+        assert (Hul : until_lf d = src ++ until_lf rest).
+        { rewrite Hd at 1. apply until_lf_app. exact Hb. }
+        rewrite Htl, Hul, !app_length.
+        assert (Hfl : flag ec (src ++ until_lf rest) = flag (last_cr src) (until_lf rest)).
+        { unfold flag. destruct (until_lf rest) as [|u us] eqn:Hu.
+          - rewrite app_nil_r. reflexivity.
+          - rewrite last_cr_app by discriminate. unfold src. reflexivity. }
+        rewrite Hfl. rewrite !Nat.add_assoc. reflexivity.
+  Qed.
+
+  Lemma strip_cr_len : forall l, length (strip_cr l) = fin (last_cr l) (length l).
+  Proof.
+    induction l as [|a l IHl]; [reflexivity|]. cbn [strip_cr last_cr].
+    destruct l; [unfold fin; destruct (N.eqb a CR); reflexivity|].
+    cbn [length] in *. rewrite IHl. unfold fin. destruct (last_cr (n :: l)); lia.
+  Qed.
+
+  Lemma until_lf_take_line : forall d, until_lf (take_line LF d) = until_lf d.
+  Proof.
+    induction d as [|x d IH]; [reflexivity|]. cbn [take_line until_lf].
+    destruct (N.eqb x LF) eqn:Hl; cbn [until_lf]; rewrite Hl; [reflexivity|]. f_equal. exact IH.
+  Qed.
+
+  (* one call at the beginning of a line: width of the raw line (including its LF), number of its
+     bytes before the LF minus a final CR — for every delivery *)
+  Theorem consume_sequence_line_spec : forall fuel st d m,
+    repb st d m -> m + length d + 1 < fuel ->
+    exists st', consume_sequence_line rd cap fuel st false false 0 0
+                = (SOk, length (idx_line d), length (strip_cr (until_lf (idx_line d))), st').
+  Proof.
+    intros fuel st d m HR Hf.
+    destruct d as [|x r].
+    - destruct (csl_loop fuel st [] m false 0 0 HR Hf (fun _ => I)) as [st' E].
+      exists st'. rewrite E. reflexivity.
+    - destruct (N.eqb x GT) eqn:Hg.
+      + (* a definition line: nothing is consumed *)
+        unfold idx_line. rewrite Hg. cbn [until_lf strip_cr length].
+        assert (forall f st m, m < f -> repb st (x :: r) m ->
+                 exists st', consume_sequence_line rd cap f st false false 0 0 = (SOk, 0, 0, st')) as Hgen.
+        { induction f as [|f IHf]; intros st m Hm HR; [lia|].
+          cbn [consume_sequence_line].
+          pose proof (br_fill_buf_spec rd Rep Hsim cap Hcap st (x :: r) m HR) as Hfb.
+          destruct (br_fill_buf rd cap st) as [[src|] st1].
+          - destruct Hfb as [Hp [Hn _]]. destruct src as [|y w'].
+            + exists st1. reflexivity.
+            + destruct (prefix_cons y w' _ Hp) as [r' Hd]. injection Hd as Hy _. subst y.
+              rewrite Hg. cbn [Nat.eqb andb orb]. exists st1. reflexivity.
+          - destruct Hfb as [m1 [Hm1 HR1]]. exact (IHf st1 m1 ltac:(lia) HR1). }
+        apply (Hgen fuel st m); [|exact HR]. lia.
+      + destruct (csl_loop fuel st (x :: r) m false 0 0 HR Hf (fun _ => Hg)) as [st' E].
+        exists st'. rewrite E. unfold idx_line. rewrite Hg.
+        rewrite until_lf_take_line. rewrite strip_cr_len.
+        cbn [Nat.add]. unfold flag.
+        destruct (until_lf (x :: r)); reflexivity.
   Qed.
 End ScanProofs.
